@@ -160,6 +160,9 @@ def cases(rng, n):
         t = rel(rng, rng.choice((0, 1, 2, 3)))
         vs = [v for v in versions_in(t) if v.strip() and v[0].isdigit()]
         name = rng.choice(NAMES[:4])
+        if rng.random() < 0.1:
+            # a name that is almost one of the names mentioned: not mentioned, so the answer is None
+            name = rng.choice((name + ' ', ' ' + name, name.upper(), name + '\n', name + ':any', name.split(':')[0], name[:-1], '\t' + name + ' ', name + '\xa0'))
         r = rng.random()
         if r < 0.12:
             cand = None
@@ -184,8 +187,9 @@ def boundary():
     """every operator x {below, order-equal, equal, above, absent} for one required version"""
     for op in OPS + BAD_OPS:
         for cand in ('1.0~1', '1.00', '1.0', '0:1.0-0', '1.0a', None, ''):
-            for name in ('a', 'b'):
+            for name in ('a', 'b', 'a ', ' a', 'A', ''):
                 yield [['v', 'a', op, '1.0', []], name, cand]
+                yield [['s', 'a', []], name, cand]
 
 
 def streams(tier, rng):
